@@ -92,6 +92,7 @@ class Gen:
         self.max_lanelets, self.max_obstacles, self.max_states = max_lanelets, max_obstacles, max_states
         self.X = xsd_enums()
         self.rr = {}
+        self.calls = {}
         self.cls_attrs = state_class_attrs()
         self._next_id = 0
 
@@ -101,9 +102,15 @@ class Gen:
         members = list(members)
         if name not in self.rr:
             self.rr[name] = self.r.randrange(len(members))
+            self.calls[name] = [0, len(members)]
         k = self.rr[name]
         self.rr[name] = k + 1
+        self.calls[name][0] += 1
         return members[k % len(members)]
+
+    def fully_visited(self):
+        """names of the round-robin choices every member of which has been produced at least once"""
+        return sorted(n for n, (c, m) in self.calls.items() if c >= m)
 
     def flip(self, p=0.5):
         return self.r.random() < p
@@ -262,9 +269,9 @@ class Gen:
         classes = list(STATE_CLASSES_XSD) + ([] if self.strict else STATE_CLASSES_API_ONLY)
         cls = self.every("state-class", classes)
         if cls == "CustomState":
-            extra = self.r.sample(STATE_XSD_ATTRS, self.r.randint(0, 5))
-            if self.flip(0.3):
-                extra = [self.every("custom-attr", STATE_XSD_ATTRS)] + [e for e in extra][:2]
+            extra = self.r.sample(STATE_XSD_ATTRS, self.r.randint(0, 4))
+            # every element name of the XSD state type is visited round-robin (camelCase mapping of each name)
+            extra = [self.every("custom-attr", STATE_XSD_ATTRS) for _ in range(self.r.randint(1, 3))] + extra[:3]
             seen, names = set(), []
             for n in ["position", "orientation"] + extra:
                 if n not in seen:
